@@ -230,10 +230,15 @@ def load_findings():
     return json.load(open(p))["findings"]
 
 
+CURRENT = None      # the Check of this process (the runner turns to it when a later stage fails for infrastructure reasons)
+
+
 class Check:
     """Collects what one check run covered and turns divergences into the verdict."""
 
     def __init__(self, pid, tier, seed, level):
+        global CURRENT
+        CURRENT = self
         self.pid, self.tier, self.seed, self.level = pid, tier, seed, level
         self.t0 = time.time()
         self.cov = {"states": 0, "transitions": 0, "traces_validated_against_impl": 0, "samples": [],
